@@ -394,6 +394,18 @@ func (d *Decoder) VerifyAllData() (ok bool, err error) {
 // error is returned. If checkParity is true, extra checking is done
 // of the reconstructed parity data.
 func (d *Decoder) Repair(checkParity bool) ([]string, error) {
+	if d.shardByteCount == 0 {
+		// No parity volumes were loaded, so nothing can be
+		// reconstructed: either a data file is unusable and
+		// repair isn't possible, or there's nothing to do.
+		for _, data := range d.fileData {
+			if data == nil {
+				return nil, reedsolomon.ErrTooFewShards
+			}
+		}
+		return nil, nil
+	}
+
 	rs, err := d.newReedSolomon()
 	if err != nil {
 		return nil, err
